@@ -135,15 +135,7 @@ func init() {
 	// Blind: CreateBlindedDestination for a list of instants in given zones; the library's own check with the factor
 	// derived for the UTC day the specification computed, with another day's factor and with a random factor.
 	register("Blind", func(s *Session, a Args) Res {
-		// the process's local time zone must not matter: the specification may ask for one (time.Local is process-wide,
-		// so Blind ops are serialised while it is set)
-		if a.Has("localoffset") {
-			localZoneMu.Lock()
-			defer localZoneMu.Unlock()
-			saved := time.Local
-			time.Local = time.FixedZone("local", a.Int("localoffset"))
-			defer func() { time.Local = saved }()
-		}
+		// (the process's local time zone must not matter: vectors may carry "localoffset", applied by runOp)
 		rng := rand.New(rand.NewSource(s.Seed*271 + int64(a.Int("stream"))))
 		base := append([]byte{}, a.Bytes("in")...)
 		seed := make([]byte, 32)
